@@ -11,7 +11,12 @@ export RUSTUP_TOOLCHAIN=stable-x86_64-unknown-linux-gnu CARGO_NET_OFFLINE=true R
 cd "$WT" || exit 2
 git checkout -q -- . ; git clean -fdq -e out -e target
 DEST=$(python3 -c "import json;print(json.load(open('$D/meta.json'))['demo_dest'])")
-CMD=$(python3 -c "import json;print(json.load(open('$D/meta.json'))['demo_cmd'])")
+CMD=$(python3 -c "
+import json,re
+c=json.load(open('$D/meta.json'))['demo_cmd']
+# the command runs inside the worktree already: drop a leading 'cd <somewhere> &&'
+c=re.sub(r'^\s*cd\s+\S+\s*&&\s*','',c)
+print(c)")
 DEMO=$(ls $D/*.rs | head -1)
 applies=false; suite=false; demo_fails=false; demo_passes=false
 cp "$DEMO" "$WT/$DEST"
